@@ -224,15 +224,24 @@ def corruptions(rng, pdu, n):
 
 
 def custom_codec_case(rng):
-    """custom_codecs={'ucs2': <little-endian UTF-16>}: a text that does not fit the default alphabet (automatic encoding: the
-    UCS2 fall-back) or an explicit ucs2 must be encoded with the codec it will be decoded with"""
+    """custom_codecs (ESME constructor argument; keys are SmppDataCoding member names): {'ucs2': <little-endian UTF-16>} - a
+    text that does not fit the default alphabet (automatic encoding: the UCS2 fall-back) or an explicit ucs2 must be encoded
+    with the codec it will be decoded with; and a codec registered under each of the other member names, the mixed-case
+    ones included (octet_unspecified_I / II, the 8-bit binary codings 2 and 4), must be found under that name"""
     import codecs
     from aiosmpplib.protocol import SubmitSm, DeliverSm, SmppMessage
-    le = codecs.lookup('utf-16-le')
-    custom = {'ucs2': le}
+    from aiosmpplib.state import SmppDataCoding
     cls = rng.choice((SubmitSm, DeliverSm))
-    text = rng.choice(('Привет', 'жж€', 'abc', '日本語テキスト', 'x' * 100 + 'ж'))
-    enc = rng.choice((None, None, 'ucs2'))
+    if rng.random() < 0.5:
+        name, codec = 'ucs2', codecs.lookup('utf-16-le')
+        text = rng.choice(('Привет', 'жж€', 'abc', '日本語テキスト', 'x' * 100 + 'ж'))
+        enc = rng.choice((None, None, 'ucs2'))
+    else:
+        name = rng.choice([m.name for m in SmppDataCoding if m.name not in ('gsm0338', 'ucs2')])
+        codec = codecs.lookup(rng.choice(('utf-8', 'utf-16-le', 'cp1252')))
+        text = rng.choice(('abc', 'déjà vu', 'binary?'))
+        enc = name
+    custom = {name: codec}
     m = cls(short_message=text, encoding=enc, sequence_num=rng.randrange(1, 1000))
     fail = None
     try:
@@ -241,11 +250,41 @@ def custom_codec_case(rng):
         back = cls.from_pdu(pdu, SmppMessage.parse_header(pdu[:16]), 'gsm0338', custom)
         got = back.short_message or back.message_payload
         if got != text:
-            fail = 'with a custom codec for ucs2, %s (encoding %r) reads back as %s' % (ascii(text), enc, ascii(got))
+            fail = 'with a custom codec for %s, %s (encoding %r) reads back as %s' % (name, ascii(text), enc, ascii(got))
     except Exception as e:      # noqa
-        fail = 'with a custom codec for ucs2, %s (encoding %r): %r' % (ascii(text), enc, e)
-    line = '# custom-codec %s %r %s' % (cls.__name__, enc, ascii(text))
-    return Case(line, line, ('custom-codec', cls.__name__, enc, text.isascii()), fail, {'op': 'custom', 'note': line})
+        fail = 'with a custom codec for %s, %s (encoding %r): %r' % (name, ascii(text), enc, e)
+    line = '# custom-codec %s %s %r %s' % (cls.__name__, name, enc, ascii(text))
+    return Case(line, line, ('custom-codec', cls.__name__, name, enc is None), fail, {'op': 'custom', 'note': line})
+
+
+def long_payload_case(rng, n_octets, kind):
+    """texts whose encoding fills message_payload up to its last octets (the two-octet length field allows 65535): the PDU the
+    library writes for them must be one it reads back (predicate only; the model is compared on shorter texts)"""
+    from aiosmpplib.protocol import SubmitSm, DeliverSm, SmppMessage
+    from aiosmpplib.state import OptionalParam
+    cls = rng.choice((SubmitSm, DeliverSm))
+    if kind == 'gsm':
+        text = ''.join(rng.choice('abcdefghij XYZ.,') for _ in range(n_octets))
+    elif kind == 'ucs2':
+        text = ''.join(rng.choice('жяблок') for _ in range(n_octets // 2))
+    else:
+        text = ''.join(rng.choice('abcdefghij') for _ in range(n_octets - 2 * 400)) + '€' * 400
+    params = [OptionalParam(0x0204, 7), OptionalParam(0x0381, '1' * 18)] if rng.random() < 0.5 else []
+    fail = None
+    try:
+        m = cls(message_payload=text, sequence_num=rng.randrange(1, 2 ** 31), optional_params=params) if rng.random() < 0.5 \
+            else cls(short_message=text, sequence_num=rng.randrange(1, 2 ** 31), optional_params=params)
+        m.set_encoding_info('gsm0338', None)
+        pdu = m.pdu()
+        back = cls.from_pdu(pdu, SmppMessage.parse_header(pdu[:16]), 'gsm0338', None)
+        got = back.short_message or back.message_payload
+        if got != text:
+            fail = 'a %d-octet %s text in message_payload reads back differently (first difference at %d)' % (
+                n_octets, kind, next((i for i, (a, b) in enumerate(zip(got, text)) if a != b), min(len(got), len(text))))
+    except Exception as e:      # noqa
+        fail = 'a %d-octet %s text in message_payload (PDU written by the library): %r' % (n_octets, kind, e)
+    line = '# long-payload %s %s %d' % (cls.__name__, kind, n_octets)
+    return Case(line, line, ('long-payload', kind, n_octets > 65000), fail, {'op': 'long-payload', 'note': line})
 
 
 def generate(rng, tier):
@@ -293,8 +332,11 @@ def generate(rng, tier):
             if len(pdus) < 60:
                 pdus.append((pdu, default))
     # a custom codec registered for ucs2 (custom_codecs of ESME): whatever encodes must be what decodes (predicate only)
-    for _ in range(60 if thorough else 20):
+    for _ in range(120 if thorough else 40):
         yield custom_codec_case(rng)
+    for n_oct in ((65535, 65534, 65500, 65480, 60000, 40000, 32768) if thorough else (65535, 65500, 40000)):
+        for kind in ('gsm', 'ucs2', 'gsm-ext'):
+            yield long_payload_case(rng, n_oct, kind)
     # values the constructor accepts but the wire format does not
     for _ in range(1500 if thorough else 400):
         try:
